@@ -54,9 +54,96 @@ type sharedState struct {
 	fns      map[*ssa.Function]bool
 	shared   map[ssa.Value]bool
 	fields   map[string]bool // "<Type>#<idx>" holds a shared reference
+	carries  map[ssa.Value]bool    // struct values copied out of shared memory (their reference fields still point into it)
+	objs     map[ssa.Value]*objFact // private objects (by pointer value) into which such a struct value was copied
 	why      map[ssa.Value]string
 	changed  bool
 	closures map[*ssa.Function][]*ssa.MakeClosure
+}
+
+// objFact: what is known about a private object that received a by-value copy of shared state.
+type objFact struct {
+	holds  map[string]ssa.Instruction // field path -> the store that copied the struct there ("" = the whole object)
+	killed map[string]bool            // field paths re-initialised with private values before the object was handed on (parameters only)
+	param  bool
+}
+
+// pathOf splits an address into its root pointer and the field path from it.
+func pathOf(addr ssa.Value) (ssa.Value, string) {
+	var parts []string
+	for {
+		fa, ok := addr.(*ssa.FieldAddr)
+		if !ok {
+			break
+		}
+		parts = append([]string{fieldNameOf(fa)}, parts...)
+		addr = fa.X
+	}
+	return addr, strings.Join(parts, ".")
+}
+
+func pathPrefix(p, q string) bool { return p == "" || p == q || strings.HasPrefix(q, p+".") }
+
+func before(a, b ssa.Instruction) bool {
+	if a.Block() == b.Block() {
+		return instrIdx(a) < instrIdx(b)
+	}
+	return a.Block().Dominates(b.Block())
+}
+
+// sharedVia: is the reference loaded at `at` from root.path still a reference into shared memory?
+func (s *sharedState) sharedVia(root ssa.Value, path string, at ssa.Instruction) bool {
+	f := s.objs[root]
+	if f == nil {
+		return false
+	}
+	var copyStore ssa.Instruction
+	found := false
+	for hp, st := range f.holds {
+		if pathPrefix(hp, path) {
+			found, copyStore = true, st
+		}
+	}
+	if !found {
+		return false
+	}
+	for kp := range f.killed {
+		if pathPrefix(kp, path) {
+			return false
+		}
+	}
+	// re-initialised in this function after the copy and before the use
+	for _, kp := range s.killsBefore(root, copyStore, at) {
+		if pathPrefix(kp, path) {
+			return false
+		}
+	}
+	return true
+}
+
+// killsBefore: field paths of root overwritten with private values after copyStore and before `at`.
+func (s *sharedState) killsBefore(root ssa.Value, copyStore, at ssa.Instruction) []string {
+	var out []string
+	fn := at.Parent()
+	for _, b := range fn.Blocks {
+		for _, in := range b.Instrs {
+			st, ok := in.(*ssa.Store)
+			if !ok || s.shared[st.Val] || s.carries[st.Val] {
+				continue
+			}
+			r, pth := pathOf(st.Addr)
+			if r != root || pth == "" {
+				continue
+			}
+			if copyStore != nil && copyStore.Parent() == fn && !before(copyStore, st) {
+				continue
+			}
+			if before(st, at) {
+				out = append(out, pth)
+			}
+		}
+	}
+	return out
 }
 
 func fieldKey(fa *ssa.FieldAddr) string {
@@ -77,6 +164,39 @@ func (s *sharedState) mark(v ssa.Value, why string) {
 	s.shared[v] = true
 	s.why[v] = why
 	s.changed = true
+}
+
+// passObj hands the facts about object a (argument of call) to the callee's parameter.
+func (s *sharedState) passObj(of *objFact, a ssa.Value, call ssa.Instruction, param *ssa.Parameter) {
+	killed := map[string]bool{}
+	for k := range of.killed {
+		killed[k] = true
+	}
+	for _, st := range of.holds {
+		for _, k := range s.killsBefore(a, st, call) {
+			killed[k] = true
+		}
+	}
+	pf := s.objs[param]
+	if pf == nil {
+		pf = &objFact{holds: map[string]ssa.Instruction{}, killed: killed, param: true}
+		s.objs[param] = pf
+		s.changed = true
+	} else {
+		// several call sites: a path stays re-initialised only if every caller re-initialised it
+		for k := range pf.killed {
+			if !killed[k] {
+				delete(pf.killed, k)
+				s.changed = true
+			}
+		}
+	}
+	for hp := range of.holds {
+		if _, ok := pf.holds[hp]; !ok {
+			pf.holds[hp] = nil
+			s.changed = true
+		}
+	}
 }
 
 func (s *sharedState) run() {
@@ -101,6 +221,18 @@ func (s *sharedState) run() {
 						// load
 						if s.shared[x.X] && isRefType(x.Type()) {
 							s.mark(x, "loaded from "+s.why[x.X])
+						}
+						if _, isStruct := x.Type().Underlying().(*types.Struct); isStruct && !s.carries[x] && !cutType(x.Type()) {
+							r, pth := pathOf(x.X)
+							if s.shared[x.X] || s.sharedVia(r, pth, x) {
+								s.carries[x] = true // a by-value copy: its slices, maps and pointers still refer to the shared original's memory
+								s.changed = true
+							}
+						}
+						if isRefType(x.Type()) && !s.shared[x] {
+							if r, pth := pathOf(x.X); s.sharedVia(r, pth, x) {
+								s.mark(x, "reference inside a by-value copy of shared state (."+pth+")")
+							}
 						}
 						if fa, ok := x.X.(*ssa.FieldAddr); ok && isRefType(x.Type()) && s.fields[fieldKey(fa)] {
 							s.mark(x, "field "+fieldKey(fa)+" holds a shared reference")
@@ -141,6 +273,20 @@ func (s *sharedState) run() {
 							s.mark(x, s.why[x.X])
 						}
 					case *ssa.Store:
+						if s.carries[x.Val] {
+							r, pth := pathOf(x.Addr)
+							if !s.shared[r] {
+								f := s.objs[r]
+								if f == nil {
+									f = &objFact{holds: map[string]ssa.Instruction{}, killed: map[string]bool{}}
+									s.objs[r] = f
+								}
+								if _, ok := f.holds[pth]; !ok {
+									f.holds[pth] = x
+									s.changed = true
+								}
+							}
+						}
 						if s.shared[x.Val] && isRefType(x.Val.Type()) {
 							if fa, ok := x.Addr.(*ssa.FieldAddr); ok {
 								if k := fieldKey(fa); k != "" && !s.fields[k] {
@@ -188,6 +334,9 @@ func (s *sharedState) run() {
 							for i, a := range args {
 								if s.shared[a] && i+off < len(f.Params) {
 									s.mark(f.Params[i+off], s.why[a])
+								}
+								if of := s.objs[a]; of != nil && i+off < len(f.Params) && !cc.IsInvoke() {
+									s.passObj(of, a, x, f.Params[i+off])
 								}
 							}
 							// shared results
@@ -262,7 +411,7 @@ func c03(c *Ctx) {
 			}
 			fns[fn] = true
 		}
-		st := &sharedState{p: p, fns: fns, shared: map[ssa.Value]bool{}, fields: map[string]bool{}, why: map[ssa.Value]string{}}
+		st := &sharedState{p: p, fns: fns, shared: map[ssa.Value]bool{}, fields: map[string]bool{}, why: map[ssa.Value]string{}, carries: map[ssa.Value]bool{}, objs: map[ssa.Value]*objFact{}}
 		st.changed = true
 		st.shared[sv.Handle.Params[0]] = true
 		st.why[sv.Handle.Params[0]] = "the service object " + TypeKey(sv.Type)
@@ -334,6 +483,11 @@ func c03(c *Ctx) {
 								continue
 							}
 							target = "var " + a.Name()
+						case *ssa.IndexAddr:
+							if !st.shared[a.X] {
+								continue
+							}
+							target = "an element of " + RenderN(a.X, 3)
 						default:
 							continue
 						}
@@ -363,6 +517,11 @@ func c03(c *Ctx) {
 						}
 					case *ssa.Call:
 						cc := x.Common()
+						if bi, ok := cc.Value.(*ssa.Builtin); ok && bi.Name() == "append" && len(cc.Args) == 2 && st.shared[cc.Args[0]] {
+							clean = false
+							report("no-shared-state-write", "append to "+RenderN(cc.Args[0], 3)+" in "+shortFn(fn), x, "handler-reachable code appends to a slice whose backing array is shared by all connections ("+st.why[cc.Args[0]]+"): while spare capacity remains the elements are written in place, so connections overwrite each other's entries")
+							continue
+						}
 						f := cc.StaticCallee()
 						if f == nil || InRepo(f) || f.Signature.Recv() == nil || len(cc.Args) == 0 || !st.shared[cc.Args[0]] {
 							continue
